@@ -42,6 +42,13 @@ func bubble(t *testing.T, f func()) (res bubbleResult) {
 			s := fmt.Sprint(r)
 			if strings.Contains(s, "blocked goroutines remain") || strings.Contains(s, "deadlock") {
 				res.Leak = s
+				if !strings.Contains(s, "goroutine ") {
+					// make sure the report says which goroutines were left
+					res.Leak += "\n" + goroutineDump("synctest bubble")
+				}
+				if len(res.Leak) > 6000 {
+					res.Leak = res.Leak[:6000] + "..."
+				}
 				return
 			}
 			panic(r)
